@@ -427,7 +427,10 @@ def run_shard(shard, rec):
                 lk = [("var", n) for n in names]
                 # functions: tagged (deciding); refcounts and generator temporaries interleaved
                 fn = [("func", rng.choice(["<func>", "<builtin>"]) + rng.choice(
-                    ["f", "F", "f^", "f_", "y", "rhs_2", "0", "if"])) for _ in range(rng.randint(0, 4))]
+                    ["f", "F", "f^", "f_", "y", "rhs_2", "0", "if",
+                     # reserved words / digits hidden behind characters that sanitising removes or replaces
+                     "_lambda", ".if", "-class", "__import", "<in", "^None", "_0", "*1f", "_", "__", "^", "True",
+                     "not^", "f.g", "is", "_is"])) for _ in range(rng.randint(0, 4))]
                 lk += fn
                 lk += [("refcnt", n) for n in rng.sample(names, min(len(names), rng.randint(0, 3)))]
                 lk += [("tmp", rng.choice(["hoisted", "i", "res1", "y", "Y"])) for _ in range(rng.randint(0, 3))]
@@ -450,7 +453,9 @@ def run_shard(shard, rec):
                 rec.count("random_sets")
                 if i % 7 == 0:
                     # separate class: bare (untagged) function names
-                    bare = [("func", rng.choice(["class", "if", "1f", "f", "lambda", "0"]))]
+                    bare = [("func", rng.choice(["class", "if", "1f", "f", "lambda", "0", "_lambda", ".if", "-class",
+                                                 "<in", "__import", "_0", "^1f", "^None", "is^", "_f", "f.g"]))
+                            for _ in range(rng.choice([1, 2, 3]))]
                     before = len(rec.violations)
                     keys = set(rec.violations)
                     check_python(bare, rec, False)
